@@ -137,7 +137,7 @@ func evalBuilder(bc builderCase) *Failure {
 
 func runC12(c *Ctx) {
 	c.Level = "exploration"
-	c.Rule = "every subset of the 15 words of length <=3 over {a,b} and of the 13 words of length <=2 over {0x00,'m',0xff} (thorough: every subset of size <=6 of the 31 binary words of length <=4) built with New: Lookup on every probe string of length <= maxlen+1 over the alphabet plus a foreign letter, NumberOfWords, accepted language read from the node graph, node count = number of distinct right languages (Myhill-Nerode); families with root / inner branching 0..80 (256 thorough), with and without the empty word; every Add sequence of length <=5 over the 7 words of length <=2 (plus nil) through a Builder, error exactly for words not above the last accepted word, result = automaton of the accepted words; non-trivial = word set with >= 2 words / Add sequence with a rejected step"
+	c.Rule = "every subset of the 15 words of length <=3 over {a,b} and of the 13 words of length <=2 over {0x00,'m',0xff} (quick: also every subset of size <=5 of the 31 binary words of length <=4) built with New: Lookup on every probe string of length <= maxlen+1 over the alphabet plus a foreign letter, NumberOfWords, accepted language read from the node graph, node count = number of distinct right languages (Myhill-Nerode); families with root / inner branching 0..80 (256 thorough), with and without the empty word; every Add sequence of length <=5 over the 7 words of length <=2 (plus nil) through a Builder, error exactly for words not above the last accepted word, result = automaton of the accepted words; non-trivial = word set with >= 2 words / Add sequence with a rejected step"
 	u3 := wordsUpTo([]byte("ab"), 3)
 	total := int64(1) << uint(len(u3))
 	c.parFor(total, 64, func(lo, hi int64) {
@@ -172,7 +172,7 @@ func runC12(c *Ctx) {
 	{
 		maxSize := 5
 		if c.Thorough() {
-			maxSize = 6
+			maxSize = 7
 		}
 		u4 := wordsUpTo([]byte("ab"), 4)
 		var sets [][]string
@@ -195,6 +195,31 @@ func runC12(c *Ctx) {
 			}
 		})
 		c.SetCount(fmt.Sprintf("binary_word_sets_len<=4_size<=%d", maxSize), int64(len(sets)))
+	}
+	if c.Thorough() {
+		// ternary alphabet: every set of at most 5 of the 40 words of length <= 3 over {a,b,c}
+		u3c := wordsUpTo([]byte("abc"), 3)
+		var sets [][]string
+		var rec func(start int, cur []string)
+		rec = func(start int, cur []string) {
+			sets = append(sets, append([]string{}, cur...))
+			if len(cur) == 5 {
+				return
+			}
+			for i := start; i < len(u3c); i++ {
+				rec(i+1, append(cur, u3c[i]))
+			}
+		}
+		rec(0, nil)
+		c.parFor(int64(len(sets)), 256, func(lo, hi int64) {
+			for _, ws := range sets[lo:hi] {
+				dc := dawgCase{Words: ws, Alpha: "abcd", ProbeLen: 4}
+				c.Check(func() *Failure { return evalDawgSet(dc) })
+				c.Nontrivial(1)
+			}
+		})
+		c.SetCount("ternary_word_sets_len<=3_size<=5", int64(len(sets)))
+		c.Rule += "; THOROUGH: every subset of size <= 7 of the 31 binary words of length <= 4 and every set of at most 5 of the 40 words of length <= 3 over {a,b,c}"
 	}
 	// wide nodes: a small alphabet never produces a node with many links, so implementations that switch
 	// strategy above a link-count threshold (binary search, tables) need families with branching up to 256
